@@ -390,9 +390,14 @@ class Ctx:
         m = re.search(r"(ERROR: AddressSanitizer: [^\n]*|runtime error: [^\n]*|SUMMARY: [^\n]*)", err or "")
         return m.group(1) if m else None
 
+    @staticmethod
+    def _short_err(err):
+        keep = [l for l in (err or "").split("\n") if re.search(r"ERROR|runtime error|SUMMARY|^\s+#[0-6] ", l)]
+        return "\n".join(keep[:14])[:1500]
+
     def add_witness(self, corr, case, impl, model, what):
         w = {"corr": corr, "what": what, "case": case,
-             "impl": impl if isinstance(impl, list) else {"crash": list(impl[1])[-5:], "stderr": impl[2][-1500:]},
+             "impl": impl if isinstance(impl, list) else {"crash": list(impl[1])[-5:], "stderr": self._short_err(impl[2])},
              "model": model}
         k = self.match_known(w)
         if k:
